@@ -402,6 +402,7 @@ static ssize_t stream_read(Kernel::FdEntry *f, struct iovec *iov, int iovcnt, vo
     } else if (controllen) {
       *controllen = 0;
     }
+    if (K->trace) K->trace("scm_rights", (int64_t)nfds, (int64_t)s.fds.size());
     if (nfds < s.fds.size()) {
       // surplus is discarded by the kernel, MSG_CTRUNC set (without any control buffer - a plain read - silently)
       for (size_t i = nfds; i < s.fds.size(); i++) __real_close(s.fds[i]);
